@@ -8,6 +8,7 @@
      A:<ms>              the clock advances
      N:<op> / F:<op>     next() / finish() on stream <op> (queued per stream, FIFO)
      C:<op>              next() polled once and dropped if still pending (cancellation)
+     U:<op>:single       an operation issued through the handle of stream <op> (SearchStream::ldap_handle()), if that stream is started and idle
      M:<pct>:<mid>.<k>.<tok>,...   several complete responses in one write (or cut in two at pct percent)
      X:raw:<hex>         the server sends these bytes; the codec model (FrameFixed.decode_inner') says what they are
      X:eof | X:garbage | X:rderr | X:wrerr     connection faults
@@ -35,6 +36,9 @@ let run_script (toks : string list) : string =
   let infos : (int, info) Hashtbl.t = Hashtbl.create 8 in
   let info o = match Hashtbl.find_opt infos o with Some i -> i | None -> let i = { cmds = []; lastres = "-" } in Hashtbl.add infos o i; i in
   let main_dropped = ref false in
+  (* operations issued through a stream's own handle (U): new op index -> stream index; the stream's task awaits such an operation, so the
+     stream's queued commands wait behind it *)
+  let via : (int * int) list ref = ref [] in
   let wr_armed = ref false in
   let partial = ref false in
   let apply e = st := step !st e in
@@ -60,7 +64,7 @@ let run_script (toks : string list) : string =
       (* stream commands, FIFO per stream *)
       for o = 0 to nops () - 1 do
         let i = info o in
-        let continue = ref true in
+        let continue = ref (not (List.exists (fun (v, p) -> p = o && (getop v).o_status = CWait) !via)) in
         while !continue && i.cmds <> [] do
           let c = getop o in
           (match c.o_status with
@@ -144,12 +148,23 @@ let run_script (toks : string list) : string =
      | ["R"; mid; k; t] -> if not !partial then apply (ServerSend { r_mid = z_of_decimal mid; r_kind = rkind_of_string k; r_tok = nat_of_int (int_of_string t) })
      | ["B"; _; _; _] -> partial := true
      | ["A"; ms] -> apply (Advance (z_of_decimal ms))
+     (* a command for an operation that does not exist (yet) goes nowhere *)
+     | ["N"; o] | ["F"; o] | ["C"; o] when int_of_string o >= nops () -> ()
      | ["N"; o] -> let i = info (int_of_string o) in i.cmds <- i.cmds @ ['n']
      | ["F"; o] -> let i = info (int_of_string o) in i.cmds <- i.cmds @ ['f']
      | ["L"; mid; count; first] ->      (* a flood of entries for one search, tokens 3t+1 *)
          if not !partial then for t = int_of_string first to int_of_string first + int_of_string count - 1 do
            apply (ServerSend { r_mid = z_of_decimal mid; r_kind = REntry; r_tok = nat_of_int (3 * t + 1) }) done
      | ["C"; o] -> let i = info (int_of_string o) in i.cmds <- i.cmds @ ['c']
+     | ["U"; o; _] ->
+         (* only on a started stream that is idle: no call in progress, nothing queued, no earlier such operation still pending *)
+         let o = int_of_string o in
+         if o < nops () && (match (getop o).o_status with SActive | SDone | SError -> true | _ -> false) && is_search_kind (getop o).o_kind
+            && (getop o).o_call = None && (info o).cmds = [] && not (List.exists (fun (v, p) -> p = o && (getop v).o_status = CWait) !via) then begin
+           let n = nops () in
+           apply (Start (KSingle, None));
+           if nops () > n then begin apply (ViaHandle (nat_of_int o)); via := (n, o) :: !via; apply (CliPoll (nat_of_int n)) end
+         end
      | ["M"; _; parts] ->
          if not !partial then List.iter (fun part -> match String.split_on_char '.' part with
            | [mid; k; t] -> apply (ServerSend { r_mid = z_of_decimal mid; r_kind = rkind_of_string k; r_tok = nat_of_int (int_of_string t) })
